@@ -10,12 +10,26 @@ from ..report import RuleResult, Undecided, norm_src
 
 
 def _loader(ctx: Ctx):
-    """(function, assignment statement) of the pickle.load whose file is the executor's from_cache."""
+    """(function, assignment statement) of the pickle.load whose file is the executor's from_cache.  A helper whose only job is to open
+    the file and hand back what pickle.load returns is looked through: the assignment of its result in the caller is the loader site."""
     hits = []
+    wrappers = {}
+    any_call = False
     for f in ctx.funcs():
         for n in iter_own_nodes(f.node):
+            if isinstance(n, ast.Call) and (ctx.T.resolve_callee(f, n) or "") == "ext:pickle.load":
+                any_call = True
             if isinstance(n, ast.Assign) and isinstance(n.value, ast.Call) and (ctx.T.resolve_callee(f, n.value) or "") == "ext:pickle.load":
                 hits.append((f, n))
+            if isinstance(n, ast.Return) and isinstance(n.value, ast.Call) and (ctx.T.resolve_callee(f, n.value) or "") == "ext:pickle.load":
+                wrappers[f.qualname] = f
+    for q, w in wrappers.items():
+        for f2, call in ctx.callers_of(q):
+            for n in iter_own_nodes(f2.node):
+                if isinstance(n, ast.Assign) and n.value is call:
+                    hits.append((f2, n))
+    if not hits and any_call:
+        raise Undecided("pickle.load is called, but its result is not bound by a plain assignment (form not modelled)")
     return hits
 
 
